@@ -56,6 +56,7 @@ func cmdVerify(args []string) {
 	verbose := fs.Bool("v", false, "verbose")
 	out := fs.String("out", "/verif/out/dev", "output dir for VCs")
 	timeout := fs.Int("timeout", 10, "solver timeout (s)")
+	explain := fs.Bool("explain", false, "for sat failures, show which goal conjuncts are false in the model")
 	fs.Parse(args)
 	t0 := time.Now()
 	eng, err := loadEngine(*repo)
@@ -127,7 +128,52 @@ func cmdVerify(args []string) {
 			}
 			bad++
 			fmt.Printf("   FAIL %-50s %s [%s] %s\n        %s\n        %s\n", n, worst.r.Status, worst.r.Detail, worst.o.Pos, worst.r.File, strings.ReplaceAll(worst.r.Model, "\n", " "))
+			if *explain && worst.r.Status == "sat" && !worst.o.Cover {
+				eng.explain(worst.o, dir)
+			}
 		}
 	}
 	fmt.Printf("done in %.1fs, %d problems\n", time.Since(t0).Seconds(), bad)
+}
+
+// explain: evaluate the goal's conjuncts in a model of the failing query.
+func (e *Engine) explain(o *Obligation, dir string) {
+	var parts []*Term
+	var flat func(t *Term, hyp bool)
+	flat = func(t *Term, hyp bool) {
+		switch {
+		case t.Op == "and":
+			for _, a := range t.Args {
+				flat(a, hyp)
+			}
+		case t.Op == "=>" && !hyp:
+			flat(t.Args[0], true)
+			flat(t.Args[1], false)
+		default:
+			if t.Op == "forall" || t.Op == "exists" {
+				return
+			}
+			parts = append(parts, t)
+		}
+	}
+	flat(o.Goal, false)
+	var probes []probe
+	for i, p := range parts {
+		if i >= 40 {
+			break
+		}
+		probes = append(probes, probe{fmt.Sprintf("c%d", i), p})
+	}
+	m, ok := e.modelValues(o, probes, nil, dir, "explain")
+	if !ok {
+		fmt.Println("        (no model for explanation)")
+		return
+	}
+	for i, p := range probes {
+		s := p.term.String()
+		if len(s) > 160 {
+			s = s[:160] + "..."
+		}
+		fmt.Printf("        [%s] %s\n", m[fmt.Sprintf("c%d", i)], s)
+	}
 }
